@@ -422,6 +422,38 @@ def rule_grid(ctx: Ctx) -> RuleReport:
             rep.ok({"docx_table": need, "padded": True})
         else:
             rep.fail(Finding("C13-GRID", DOCX_, tf.qual, f"w:{need} not honoured", f"the table reader never looks at w:{need} ({why}); cell (i, j) of the returned grid is then not source cell (i, j)", line=rl.lineno))
+    # a "closest descendants" helper (yield the child when its tag is in the set, otherwise search inside it) looks through every element
+    # that is not in the set -- also through a nested table. Whoever asks it for paragraphs must name the table tag as well, or the
+    # paragraphs of a table nested in a cell are taken for paragraphs of the outer cell (and are reported again with the nested table)
+    helpers = set()
+    for f in dm.functions.values():
+        if f.parent is not None or len(f.node.args.args) != 2:
+            continue
+        par, tg = f.node.args.args[0].arg, f.node.args.args[1].arg
+        loops = [l for l in f.node.body if isinstance(l, ast.For) and isinstance(l.iter, ast.Name) and l.iter.id == par and isinstance(l.target, ast.Name)]
+        if len(loops) != 1:
+            continue
+        l = loops[0]
+        ifs = [i for i in l.body if isinstance(i, ast.If)]
+        if len(ifs) == 1 and norm(ifs[0].test) == f"{l.target.id}.tag in {tg}" and any(isinstance(x, ast.Yield) for st in ifs[0].body for x in ast.walk(st)) \
+                and any(isinstance(x, ast.YieldFrom) and isinstance(x.value, ast.Call) and isinstance(x.value.func, ast.Name) and x.value.func.id == f.name for st in ifs[0].orelse for x in ast.walk(st)):
+            helpers.add(f.name)
+    n_calls = 0
+    for f in dm.functions.values():
+        for c in calls_in(f):
+            if not (isinstance(c.func, ast.Name) and c.func.id in helpers and len(c.args) == 2):
+                continue
+            tags = ctx.folder.fold(dm, c.args[1])
+            if not isinstance(tags, (tuple, list, set, frozenset)):
+                continue
+            names = {str(t).rsplit("}", 1)[-1] for t in tags}
+            n_calls += 1
+            if "p" in names and "tbl" not in names:
+                rep.fail(Finding("C13-GRID", DOCX_, f.qual, f"{anorm(c, f.node)} looks through nested tables", f"`{short(c, 60)}` asks the closest-descendants helper for paragraphs without naming w:tbl: the helper searches inside every element that is not in the set, so the paragraphs of a table nested in a cell (or a text box) are returned as paragraphs of the outer element -- their text is merged into the outer cell and reported a second time with the nested table", line=c.lineno))
+            else:
+                rep.ok({"closest_descendants": short(c, 50), "stops_at": sorted(names)})
+    if helpers and n_calls < 4:
+        raise AnalysisError(f"C13-GRID: only {n_calls} calls of the closest-descendants helper with a constant tag set found (4 confirmed)")
     # XLSX
     XLSX_ = X + "ms_modern/xlsx_extractor.py"
     rs = ctx.p.func(XLSX_, "_read_sheet_data")
